@@ -79,16 +79,29 @@ func c20StatusNeedsProtectingStrategy(c *eng.Ctx) {
 				}
 			}
 			why := ""
+			parametrised := false
 			switch {
 			case len(sets) == 0:
 				why = "no strategy is registered in the function that serves /status"
 			default:
 				for _, s := range sets {
 					a := eng.Args(s)
+					v := a[len(a)-1]
+					if mi, isMI := v.(*ssa.MakeInterface); isMI {
+						v = mi.X
+					}
+					if _, isParam := v.(*ssa.Parameter); isParam {
+						parametrised = true // a shared builder: strategy and flag come from the caller, judged per calling context by R3
+						continue
+					}
 					if ok, w := protecting(a[len(a)-1], 2); !ok {
 						why = w
 					}
 				}
+			}
+			if parametrised && why == "" {
+				c.Pass("R4", fn, fmt.Sprintf("SubStatus = true#%d in a parametrised builder (judged per context by R3)", n), st.Pos(), "")
+				continue
 			}
 			c.Check("R4", fn, fmt.Sprintf("SubStatus = true#%d with a status-protecting strategy", n), st.Pos(), why == "",
 				"the kind is served with /status but its main strategy does not protect status"+c02Found(why))
